@@ -1000,7 +1000,7 @@ EbErrorType picture_control_set_ctor(PictureControlSet *object_ptr, EbPtr object
     // Segments
     object_ptr->enc_dec_coded_sb_count = 0;
 
-    EB_MALLOC_ARRAY(object_ptr->enc_dec_segment_ctrl, total_tile_cnt);
+    EB_ALLOC_PTR_ARRAY(object_ptr->enc_dec_segment_ctrl, total_tile_cnt);
 
     for (tile_idx = 0; tile_idx < total_tile_cnt; tile_idx++) {
         EB_NEW(object_ptr->enc_dec_segment_ctrl[tile_idx],
